@@ -286,6 +286,8 @@ def run(ctx):
     hist = collections.Counter()
     violations += shared_results(ctx, hist)
     violations += shared_inputs(ctx, hist)
+    import p_recv
+    violations += p_recv.failed_pack_histories(ctx.rng, ctx.scale(150, 3000), hist)
     distinct = set()
     n_groups = ctx.scale(60, 1500)
     all_reqs = []
@@ -361,7 +363,8 @@ def run(ctx):
                 "must equal the replies of the same history run alone in a fresh interpreter, and the Lean model's; every message object receive() "
                 "handed out is re-serialised at the end of the interleaved run and must be unchanged; pairs of fresh sessions decode a message and a "
                 "variant of it (other control values) and the first result must not change; two sessions are handed the same bytearray (the common "
-                "first bytes of their next messages) and each must still receive its own message; plus a direct test of the registration "
+                "first bytes of their next messages) and each must still receive its own message; sends whose packing fails on one session must "
+                "leave no bytes in the other session's stream; plus a direct test of the registration "
                 "clause (registered session decodes the type, duplicate registration raises ValueError, unregistered and later-created sessions treat "
                 "the same bytes as an unknown type), in both orders; distinct = distinct interleavings",
         "samples": samples,
